@@ -84,6 +84,13 @@ def r12_2(run, model):
     loops = [l for l in S.find(f.body, "While")]
     ok = any(S.norm_ws(run.facts.text(FILE, l["cond"]["sp"])) == "!p.eof()" for l in loops)
     run.ob("R12.2", "file()|loops to the real end of input", ok, site(FILE, f.node["sp"]), "top-level loop condition is `!p.eof()` (raw end of input, not the fuel-aware peek)" if ok else "top-level loop may stop early")
+    top = [l for l in loops if S.norm_ws(run.facts.text(FILE, l["cond"]["sp"])) == "!p.eof()"]
+    if top:
+        inner = [x for x in S.find(top[-1]["body"], "While", "For", "Loop")]
+        outs = [x for x in S.walk_no_closures(top[-1]["body"]) if x["k"] in ("Break", "Return") and not any(S.span_contains(i_["sp"], x["sp"]) for i_ in inner)]
+        run.ob("R12.2", "file()|nothing but the end of input ends the top-level loop", not outs, site(FILE, (outs or [top[-1]])[0]["sp"]),
+               f"{len(outs)} `break` / `return` in the loop over the items of a file",
+               witness="a file with more than 64 syntax errors: the loop gives up, the remaining tokens get no Advance event and the tree is a proper prefix of the input")
     # the end-of-input test must be the real one: once fuel runs out peek()/nth() answer Eof for every position, so an eof() that goes
     # through them ends file() (and every grammar loop) with input left over
     meths = {g.name: g for g in model.fns(PARSER) if g.body is not None and g.impl == "Parser"}
